@@ -164,7 +164,8 @@ func c13TaggedHash(c *Ctx, prog *load.Program, rule string) {
 			c.R.Unknown(rule, key, pos, p+" (or no return)")
 			continue
 		}
-		got := sym.Canon(r.Ex.SliceBytes(r.Final(), r.Result(0)))
+		// the digest is returned as a slice or as an array by value
+		got := resultBytes(r, 0)
 		th := sha256T(symBytes("tag"))
 		want := sha256T(append([]*sym.Term{th, th}, vals...)...)
 		c.R.Decide(sym.Equal(got, want), rule, key, pos, "SHA256(SHA256(tag) || SHA256(tag) || inputs in order)", "tagged hash is "+got.String())
@@ -388,4 +389,25 @@ func c13Invariant(c *Ctx, prog *load.Program, rule string) {
 			c.R.Decide(ok, rule, "ctor/NewSchnorrPrivateKeyFromECDSA/value", pos, "dPrime = copy of the scalar; d and the point are negated together exactly when y(d'G) is odd; xBytes = Bytes(x(d'G)); nothing is shared with the ECDSA key ("+detail+")", "derived key differs: "+detail)
 		}
 	}
+}
+
+// resultBytes: result i of a run as a byte string, whether it is a slice, a byte string term or a byte array by value.
+func resultBytes(r *Run, i int) *sym.Term {
+	switch x := r.Final().Resolve(r.Result(i)).(type) {
+	case *sym.Term:
+		if x.Sort == sym.Bytes {
+			return sym.Canon(x)
+		}
+	case *absint.Agg:
+		cells := make([]*sym.Term, len(x.Elems))
+		for k, e := range x.Elems {
+			t, isT := r.Final().Resolve(e).(*sym.Term)
+			if !isT {
+				return sym.Canon(r.Ex.SliceBytes(r.Final(), r.Result(i)))
+			}
+			cells[k] = t
+		}
+		return sym.Canon(absint.BytesFromCells(cells))
+	}
+	return sym.Canon(r.Ex.SliceBytes(r.Final(), r.Result(i)))
 }
